@@ -384,6 +384,32 @@ impl VisitMut for Normalizer {
     }
 
     fn visit_block_mut(&mut self, b: &mut syn::Block) {
+        // `X.extend(ITER.map(|P| BODY));`  ->  `for P in ITER { X.push(BODY); }`
+        for st in b.stmts.iter_mut() {
+            let rewritten: Option<syn::Stmt> = match st {
+                syn::Stmt::Expr(syn::Expr::MethodCall(mc), Some(_)) if mc.method == "extend" && mc.args.len() == 1 && mc.attrs.is_empty() => match &mc.args[0] {
+                    syn::Expr::MethodCall(inner) if inner.method == "map" && inner.args.len() == 1 => match &inner.args[0] {
+                        syn::Expr::Closure(c) if c.inputs.len() == 1 && c.capture.is_none() => {
+                            let recv = &mc.receiver;
+                            let iter = &inner.receiver;
+                            let pat = &c.inputs[0];
+                            let body = &c.body;
+                            let pat = match pat {
+                                syn::Pat::Type(pt) => (*pt.pat).clone(),
+                                other => other.clone(),
+                            };
+                            syn::parse2::<syn::Stmt>(quote::quote! { for #pat in #iter { #recv.push(#body); } }).ok()
+                        }
+                        _ => None,
+                    },
+                    _ => None,
+                },
+                _ => None,
+            };
+            if let Some(r) = rewritten {
+                *st = r;
+            }
+        }
         inline_stable_locals(b);
         // `let P = E else { D }; REST`  ->  `match E { P => { REST }, _ => { D } }`
         if let Some(i) = b.stmts.iter().position(|s| matches!(s, syn::Stmt::Local(l) if l.attrs.is_empty() && l.init.as_ref().map_or(false, |x| x.diverge.is_some()))) {
@@ -511,6 +537,9 @@ impl VisitMut for Normalizer {
                 let single: Option<syn::Expr> = match &*a.body {
                     syn::Expr::Block(b) if b.attrs.is_empty() && b.label.is_none() && b.block.stmts.len() == 1 => match &b.block.stmts[0] {
                         syn::Stmt::Expr(x, None) if !matches!(x, syn::Expr::Let(_)) => Some(x.clone()),
+                        // `{ a = b; }`, `{ a += b; }`, `{ break; }`, `{ continue; }`, `{ return x; }` have type () / ! either way
+                        syn::Stmt::Expr(x, Some(_)) if matches!(x, syn::Expr::Assign(_) | syn::Expr::Break(_) | syn::Expr::Continue(_) | syn::Expr::Return(_)) => Some(x.clone()),
+                        syn::Stmt::Expr(x @ syn::Expr::Binary(bx), Some(_)) if matches!(bx.op, syn::BinOp::AddAssign(_) | syn::BinOp::SubAssign(_) | syn::BinOp::MulAssign(_) | syn::BinOp::BitOrAssign(_) | syn::BinOp::BitAndAssign(_) | syn::BinOp::BitXorAssign(_) | syn::BinOp::ShlAssign(_) | syn::BinOp::ShrAssign(_)) => Some(x.clone()),
                         _ => None,
                     },
                     _ => None,
